@@ -188,8 +188,10 @@ def crash_check(chk, lean_ok):
         return cov
     if not build_interposer(chk):
         return cov
-    plan = {"quick": ([("lifecycle", 60), ("rollback", 40), ("mixed", 40)], 220),
-            "thorough": ([("lifecycle", 400), ("rollback", 300), ("mixed", 300), ("signing", 150), ("release", 150)], 4000)}[chk.tier]
+    # `reissue`: a server that serves other bytes under a number it used before — after a release change whose removal of
+    # patches/ failed, the file in place is then NOT the one the new release verified under that number
+    plan = {"quick": ([("lifecycle", 60), ("rollback", 40), ("mixed", 40), ("reissue", 40)], 260),
+            "thorough": ([("lifecycle", 400), ("rollback", 300), ("mixed", 300), ("signing", 150), ("release", 150), ("reissue", 300)], 4500)}[chk.tier]
     traces = []
     for i, (profile, count) in enumerate(plan[0]):
         tp = os.path.join(WORK, "crash_%d_%d.trace" % (os.getpid(), i))
